@@ -5,6 +5,7 @@ import collections
 import datetime
 import enum
 import functools
+import os
 import pathlib
 import sys
 import time
@@ -29,6 +30,17 @@ class Eager:
         self.x = x
 
 
+class ReBase:
+    """registered directly and THEN again by name: the later registration is the effective one,
+    also for the subclass, also before any ReBase instance was printed"""
+    def __init__(self, x):
+        self.x = x
+
+
+class ReSub(ReBase):
+    pass
+
+
 class Weird:
     """repr is not an expression: a struct sequence holding one cannot have its field names
     recovered from its repr"""
@@ -42,7 +54,7 @@ class Shade(enum.Enum):
 
 
 Point = collections.namedtuple('Point', ['x', 'y'])
-for _c in (LazyA, LazyB, Eager, Shade, Point, Weird):
+for _c in (LazyA, LazyB, Eager, Shade, Point, Weird, ReBase, ReSub):
     _c.__module__ = 'c19corpus'
 
 
@@ -56,6 +68,14 @@ def register():
     @register_pretty(Eager)
     def _pe(value, ctx):
         return pretty_call(ctx, Eager, x=value.x)
+
+    @register_pretty(ReBase)
+    def _pr1(value, ctx):
+        return pretty_call(ctx, type(value), 'first', value.x)
+
+    @register_pretty('c19corpus.ReBase')
+    def _pr2(value, ctx):
+        return pretty_call(ctx, type(value), 'second', value.x)
 
 
 def address_free(t, in_set=False):
@@ -103,7 +123,10 @@ def build():
         types.SimpleNamespace(b=1, a='x'), Point(1, [2, 3]), functools.partial(int, base=2),
         ValueError('bad', 3), pathlib.PurePosixPath('/usr/lib/x'), time.gmtime(0),
         time.struct_time((1, 2, 3, 4, 5, 6, 7, 8, Weird())), time.gmtime(10 ** 9),
-        LazyA([1, 2]), LazyB({'k': LazyA(1)}), Eager((1, LazyB(2))), [LazyB(1), time.gmtime(86400)],
+        os.stat_result((33188, 1, 2, 1, 0, 0, 10, 100, 200, 300)),
+        os.stat_result((Weird(), 1, 2, 1, 0, 0, 10, 100, 200, Weird())),
+        os.stat_result((33188, 9, 2, 1, 0, 0, 10, 1, 2, 3)),
+        ReSub([1]), ReBase(2), [ReSub(3), ReBase(4)], LazyA([1, 2]), LazyB({'k': LazyA(1)}), Eager((1, LazyB(2))), [LazyB(1), time.gmtime(86400)],
         {'nested': [Shade.LIGHT, Point(LazyA(0), None)], 'words ' * 8: 'long string value ' * 6},
     ]
     for v in std:
